@@ -85,16 +85,28 @@ AEncrypt(k, m) ==
   /\ last' = [act |-> "EGEncrypt", k |-> k, m |-> m, expect |-> [res |-> SealRes(PkOf(k)).t]]
   /\ phase' = "judged" /\ UNCHANGED pf
 
-ADecryptSum(k, ms, k2) ==
+\* how the blinders of the summands relate (seal_scalar takes a caller-chosen blinder; a public constant enters a
+\* sum as the trivial ciphertext (identity, m Hm)): all fresh; the second cancels the first, so a partial sum has
+\* c1 = identity while carrying a plaintext; a trivial ciphertext first / last
+BPlans == {"fresh", "cancel", "trivfirst", "trivlast"}
+BlinderOf(plan, i, l) ==
+  CASE plan = "cancel" /\ i = 2 -> PNeg(PAtom("b1"))
+    [] plan = "trivfirst" /\ i = 1 /\ l >= 2 -> PZero
+    [] plan = "trivlast" /\ i = l /\ l >= 2 -> PZero
+    [] OTHER -> PAtom("b" \o ToString(i))
+EncB(pk, m, b) == [c1 |-> GScale(b, GenK), c2 |-> GAdd(GScale(b, pk), GScale(PConst(m), GenM))]
+
+ADecryptSum(k, ms, k2, plan) ==
   /\ phase = "idle"
-  /\ LET cts == [i \in 1..Len(ms) |-> Enc(PkOf(k), ms[i], "b" \o ToString(i))]
+  /\ LET cts == [i \in 1..Len(ms) |-> EncB(PkOf(k), ms[i], BlinderOf(plan, i, Len(ms)))]
          RECURSIVE Sum(_)
          Sum(i) == IF i = 1 THEN cts[1] ELSE CtAdd(Sum(i - 1), cts[i])
          RECURSIVE MSum(_)
          MSum(i) == IF i = 0 THEN 0 ELSE MSum(i - 1) + ms[i]
          d == Decrypt(SkOf(k2), Sum(Len(ms))) IN
-       last' = [act |-> "EGDecrypt", k |-> k, ms |-> ms, k2 |-> k2,
-                expect |-> [eq |-> (d = GScale(PConst(MSum(Len(ms))), GenM))], rightkey |-> (k = k2)]
+       last' = [act |-> "EGDecrypt", k |-> k, ms |-> ms, k2 |-> k2, plan |-> plan,
+                expect |-> [eq |-> (d = GScale(PConst(MSum(Len(ms))), GenM))], rightkey |-> (k = k2),
+                unblinded |-> GIsId(Sum(Len(ms)).c1)]
   /\ phase' = "judged" /\ UNCHANGED pf
 
 \* proofs
@@ -156,7 +168,7 @@ TN == {<<t, n>> \in (2..MaxN) \X (2..MaxN) : t <= n}
 
 Next ==
   \/ (phase = "idle" /\ \E k \in Keys, m \in Plains : AEncrypt(k, m))
-  \/ (phase = "idle" /\ \E k \in NZKeys, k2 \in NZKeys, ms \in PlainSeqs : ADecryptSum(k, ms, k2))
+  \/ (phase = "idle" /\ \E k \in NZKeys, k2 \in NZKeys, ms \in PlainSeqs, plan \in BPlans : (plan = "fresh" \/ Len(ms) >= 2) /\ ADecryptSum(k, ms, k2, plan))
   \/ (phase = "idle" /\ \E k \in NZKeys, m \in Plains, m2 \in Plains : AProve(k, m, m2))
   \/ (phase = "made" /\ \E o \in POps : ATamper(o))
   \/ (phase = "made" /\ \E pr \in PkRs : AVerify(pr))
@@ -170,7 +182,8 @@ Spec == Init /\ [][Next]_vars
 \* ------------------------------------------------------------ properties (C14)
 Judged(a) == last.act = a
 \* decrypting (a sum of) ciphertexts with the matching key gives (the sum of) the plaintexts times Hm
-Homomorphic == Judged("EGDecrypt") => (last.expect.eq <=> last.rightkey)
+\* (a sum whose blinders cancel is not blinded at all: every key "decrypts" it)
+Homomorphic == Judged("EGDecrypt") => (last.expect.eq <=> (last.rightkey \/ last.unblinded))
 \* a proof verifies iff it is untouched and presented for the recipient key
 ProofExact == Judged("EGVerify") => ((last.expect.res = "Ok") <=> (~last.touched /\ last.rightpk))
 \* verify-and-decrypt succeeds iff untouched and the key matches, and then yields m Hm
